@@ -717,3 +717,14 @@ func vDrawLines() (n int, fails []string) {
 
 //@ bounded vDrawLines drawLine for 8 line styles x thicknesses 0, 1, 3 x dash offsets 0, 12.5, 300 x horizontal / vertical on a number-checking canvas: returns, and every number handed to the backend is finite
 //@   props C14 C01
+
+// C16, the page is the outermost stacking context: its own background (with the bleed and the marks) is painted first,
+// then the canvas background propagated from the root element, then its border, then its contents
+//@ func (drawContext).drawPage
+//@   props C16
+//@   modifies anything
+//@   unclaimed call-*-pre* "box accessors on a laid-out page"
+//@   call drawBackground#1 assert[page-background-first] !arg2 && arg4 == marks && calls(drawBorder) == 0 && calls(drawStackingContext) == 0
+//@   call drawBackground#2 assert[then-the-canvas-background] arg1 == page.CanvasBackground && !arg2 && calls(drawBorder) == 0 && calls(drawStackingContext) == 0
+//@   call drawBorder#1 assert[then-the-border] arg1 == page && calls(drawBackground) == 2 && calls(drawStackingContext) == 0
+//@   call drawStackingContext#1 assert[then-the-contents] arg1 == stackingContext && calls(drawBorder) == 1
